@@ -332,6 +332,9 @@ def _(v):
     o1 = v.call("reb_orbit_from_particle_err", G, p, prim, errp)
     o2 = v.call("reb_orbit_from_particle_err", G, p2, prim2, errp2)
     v.prove("err", v.read(errp) == v.read(errp2))
+    from engine.csym import const_int
+    if const_int(v.read(errp)) != 0:
+        return                      # rejected: only the error code is meaningful (fields are NaN / not set)
     for f in ORBIT_FIELDS:
         v.prove(f, o1[f] == o2[f])
     for f in ("hvec", "evec"):
@@ -450,35 +453,48 @@ def _hvec(d, w):
     return _cross(d, w)
 
 
-for _cfg in ("generic", "retrograde_planar"):
-    @P.task("from_particle.defined.%s" % _cfg, fn="reb_orbit_from_particle_err", order=DEF_ORDER)
-    def _(v, cfg=_cfg):
-        """Definedness of every division / sqrt / acos on the non-error path.
-        generic: non-parabolic, non-radial, not exactly retrograde-planar state.
-        retrograde_planar (z = vz = 0, hz < 0, i.e. inc = pi, a valid orbit): EXPECTED TO FAIL on the unchanged tree
-        at the Pal-coordinate block (1 + hz/h = 0 and h + hz = 0): pal_h, pal_k, pal_ix, pal_iy are NaN."""
-        G, p, prim, errp, d, w = _inverse_inputs(v)
-        if cfg == "retrograde_planar":
-            # motion in the xy plane, particle on the x axis at an apsis (vx = 0); family kept small so that the
-            # solver can exhibit a counter-model
-            p.y, p.z, p.vx, p.vz = R(0), R(0), R(0), R(0)
-            d, w = (d[0], R(0), R(0)), (R(0), w[1], R(0))
-            v.assume(p.x > 0)
-        D = _no_error(v, G, p, prim, d)
-        mu = G * (p.m + prim.m)
-        h = _hvec(d, w)
-        Hs = v.eng.math1(v.st, "sqrt", _dot(h, h))
-        v.assume(_dot(w, w) * D != 2 * mu)                                # not parabolic
-        if cfg == "generic":
-            v.assume(Hs > 0)                                              # not radial
-            v.assume(Hs + h[2] != 0)                                      # not exactly retrograde planar (hz = -|h|)
-        else:
-            v.assume(h[2] < 0)                                            # clockwise: inc = pi
-        _use_acos2_contract(v)
-        _acosh_by_contract(v)
-        o = v.call("reb_orbit_from_particle_err", G, p, prim, errp)
-        v.prove("no_error", v.read(errp) == 0)
-        _slice_first(v, ("z3quick", "z3", "z3slice", "cvc5") if cfg == "retrograde_planar" else DEF_ORDER)
+@P.task("from_particle.defined.generic", fn="reb_orbit_from_particle_err", order=DEF_ORDER)
+def _(v):
+    """Definedness of every division / sqrt / acos on the non-error path for non-parabolic, non-radial, not exactly
+    retrograde-planar states (acosh argument: see not_decided)."""
+    G, p, prim, errp, d, w = _inverse_inputs(v)
+    D = _no_error(v, G, p, prim, d)
+    mu = G * (p.m + prim.m)
+    h = _hvec(d, w)
+    Hs = v.eng.math1(v.st, "sqrt", _dot(h, h))
+    v.assume(_dot(w, w) * D != 2 * mu)                                # not parabolic
+    v.assume(Hs > 0)                                                  # not radial
+    v.assume(Hs + h[2] != 0)                                          # not exactly retrograde planar (hz = -|h|)
+    _use_acos2_contract(v)
+    _acosh_by_contract(v)
+    o = v.call("reb_orbit_from_particle_err", G, p, prim, errp)
+    v.prove("no_error", v.read(errp) == 0)
+    _slice_first(v)
+
+
+P.assume("from_particle definedness is proved for non-parabolic (v^2 != 2 mu/d), non-radial (h != 0) states; parabolic and "
+         "radial states (e = 1, rejected as invalid by the forward map) return NaN fields without an error code "
+         "(observed natively, reported to the lead as candidates, no obligation kept)")
+
+
+@P.task("from_particle.defined.retrograde_planar", fn="reb_orbit_from_particle_err")
+def _(v):
+    """A valid orbit: motion in the xy plane, clockwise (inc = pi): G=1, M=1, m=0, r=(1,0,0), v=(0,-1.2,0), i.e.
+    a=25/14, e=0.44 at pericentre.  EXPECTED TO FAIL on the unchanged tree at the Pal-coordinate block
+    (tools.c:1184-1188: 1 + hz/h = 0 and h + hz = 0): pal_h, pal_k, pal_ix, pal_iy are NaN (confirmed natively)."""
+    G, p, prim, errp, d, w = _inverse_inputs(v)
+    v.eng.assume_after_check = False       # a failed check must not be assumed afterwards (it would make the path vacuous)
+    vals = {"x": 1, "y": 0, "z": 0, "vx": 0, "vy": Fraction(-6, 5), "vz": 0, "m": 0}
+    for k, x in vals.items():
+        setattr(p, k, R(x))
+    prim.m = R(1)
+    _use_acos2_contract(v)
+    _acosh_by_contract(v)
+    o = v.call("reb_orbit_from_particle_err", R(1), p, prim, errp)
+    v.prove("no_error", v.read(errp) == 0)
+    v.prove("inc_is_pi", o.inc == R(PI))
+    v.prove("a", o.a == R(Fraction(25, 14)))
+    v.prove("e", o.e == R(Fraction(11, 25)))
 
 
 @P.task("from_particle.ranges", fn="reb_orbit_from_particle_err")
@@ -530,7 +546,7 @@ def focus(ob, extra=()):
 def generalize(v, ob, terms, prefix="gen"):
     """Replace the given terms by fresh variables in goal and hypotheses (largest first).  Sound: the original
     obligation is an instance of the generalised one."""
-    terms = sorted([z3.simplify(t) for t in terms] + list(terms), key=lambda t: -len(str(t)))
+    terms = sorted([z3.simplify(t) for t in terms] + list(terms), key=lambda t: -_tsize(t))
     sub, seen = [], set()
     for t in terms:
         if t.get_id() in seen or z3.is_rational_value(t):
@@ -543,6 +559,30 @@ def generalize(v, ob, terms, prefix="gen"):
     sub = [(t, both[z3.simplify(t).get_id()]) for t, x in sub]
     ob.hyps = [z3.substitute(h, *sub) for h in ob.hyps]
     ob.goal = z3.substitute(ob.goal, *sub)
+    return ob
+
+
+def _tsize(t, cap=5000):
+    seen, stack, n = set(), [t], 0
+    while stack and n < cap:
+        x = stack.pop()
+        if x.get_id() in seen:
+            continue
+        seen.add(x.get_id())
+        n += 1
+        stack.extend(x.children())
+    return n
+
+
+def small_hyps(ob, K=60):
+    """Keep only hypotheses of term size <= K (dropping hypotheses is sound)."""
+    ob.hyps = [h for h in ob.hyps if _tsize(h) <= K]
+    return ob
+
+
+def no_hyps(ob):
+    """Goal valid on its own (pure case analysis over the If-structure of the result)."""
+    ob.hyps = []
     return ob
 
 
@@ -583,3 +623,190 @@ def _(v):
     generalize(v, focus(v.prove("P", o.n * o.P == R(PI2), order=("z3",))), [o.n, o.a])
     # Hill radius a (m/(3M))^(1/3)
     focus(v.prove("rhill", o.rhill * o.rhill * o.rhill * 3 * prim.m == o.a * o.a * o.a * p.m, order=PZ))
+
+
+P.assume("parity of the trigonometric / hyperbolic functions, instantiated only for the angle y that acos2 / the "
+         "hyperbolic branch negate: cos(-y)=cos(y), sin(-y)=-sin(y), cosh(-y)=cosh(y), sinh(-y)=-sinh(y)")
+MIN_ECC = Fraction(1e-8)
+HALF_PI = Fraction(_math.pi / 2.)
+
+
+def _parity(v, y, hyperbolic=False):
+    """Assume parity for y; returns the applications involved (for `focus`)."""
+    E = v.eng
+    RR = z3.RealSort()
+    ny = z3.simplify(-y)
+    if hyperbolic:
+        sh, ch = E.uf("sinh", RR, RR), E.uf("cosh", RR, RR)
+        v.assume(ch(ny) == ch(y), sh(ny) == -sh(y))
+        return [ch(ny), ch(y), sh(ny), sh(y)]
+    sn, cs = E.uf("sin", RR, RR), E.uf("cos", RR, RR)
+    v.assume(cs(ny) == cs(y), sn(ny) == -sn(y))
+    return [cs(ny), cs(y), sn(ny), sn(y)]
+
+
+def _find_apps(term, name):
+    out, seen, stack = [], set(), [term]
+    while stack:
+        x = stack.pop()
+        if x.get_id() in seen:
+            continue
+        seen.add(x.get_id())
+        if z3.is_app(x) and x.decl().name() == name:
+            out.append(x)
+        stack.extend(x.children())
+    return out
+
+
+for _orb in ("elliptic", "hyperbolic"):
+    @P.task("from_particle.relations.angles.%s" % _orb, fn="reb_orbit_from_particle_err")
+    def _(v, orb=_orb):
+        """inclination from h, eccentric anomaly / Kepler's equation, and the defining sums of the longitudes
+        (pomega = Omega +- omega, theta = Omega +- (omega + f), l = pomega +- M; lower signs for retrograde orbits)."""
+        G, p, prim, errp, d, w = _inverse_inputs(v)
+        D = _no_error(v, G, p, prim, d)
+        mu = G * (p.m + prim.m)
+        v.assume(_dot(w, w) * D != 2 * mu)                                     # not parabolic
+        pi = _pi_facts(v)
+        v.eng.check_defined = False
+        calls = _use_acos2_contract(v)
+        _acosh_by_contract(v)
+        seen = _spy(v, "reb_mod2pi")
+        o = v.call("reb_orbit_from_particle_err", G, p, prim, errp)
+        v.assume((o.e < 1) if orb == "elliptic" else (o.e > 1))
+        raw = dict(zip(("f", "l", "M", "theta", "omega"), [as_real(a[0]) for a in seen]))
+        RR = z3.RealSort()
+        cosf, sinf = v.eng.uf("cos", RR, RR), v.eng.uf("sin", RR, RR)
+        # --- inclination: cos(inc) = hz/h
+        hz, hh = calls[0][0], calls[0][1]
+        c = hz / hh
+        yi = _find_apps(calls[0][3], "m_acos")
+        ex = [f(y) for y in yi for f in (cosf, sinf)]
+        focus(v.prove("inc.cos", z3.Implies(z3.And(hh != 0, c > -1, c < 1), cosf(z3.simplify(o.inc)) == c), order=("z3",)), extra=ex)
+        focus(v.prove("inc.clamped", z3.And(z3.Implies(z3.And(hh != 0, c >= 1), o.inc == 0),
+                                            z3.Implies(z3.And(hh != 0, c <= -1), o.inc == R(PI))), order=("z3",)))
+        # --- reported angles are the reductions of the raw ones
+        for k in ("f", "l", "M", "theta", "omega"):
+            v.prove("reduced." + k, z3.IsInt((o[k] - raw[k]) / R(PI2)))
+        # --- defining sums, exact on the unreduced values
+        pro = o.inc < R(HALF_PI)
+        sgn = z3.If(pro, R(1), R(-1))
+        SL = ("z3slice", "z3", "cvc5")
+        rets = [c_[3] for c_ in calls] + [o.inc, o.e, raw["M"]]
+        for nm, fact in (("pomega", o.pomega == o.Omega + sgn * raw["omega"]),
+                         ("theta", raw["theta"] == o.Omega + sgn * (raw["omega"] + raw["f"])),
+                         ("l", z3.Implies(o.e > R(MIN_ECC), raw["l"] == o.pomega + sgn * raw["M"]))):
+            generalize(v, no_hyps(v.prove(nm, fact, order=("z3",))), rets)
+        # --- eccentric anomaly and Kepler's equation
+        cut(v, "a_nonzero", o.a != 0, order=("z3",))
+        focus(v.eng.obligations[-1])
+        num, den, dis, Eret = calls[2]
+        if orb == "elliptic":
+            ys = _find_apps(Eret, "m_acos")
+            ex = []
+            for y in ys:
+                ex += _parity(v, y)
+            E_ = z3.simplify(Eret)
+            cE, sE = cosf(E_), sinf(E_)
+            inner = z3.And(den != 0, num / den > -1, num / den < 1)
+            focus(v.prove("kepler.equation", raw["M"] == Eret - o.e * sE, order=("z3",)))
+            # definition of the eccentric anomaly d = a (1 - e cos E), solved for cos E (a, e != 0):
+            # cos E = num/den at the call site, and the call-site arguments are (1 - d/a) and e
+            small_hyps(generalize(v, focus(v.prove("kepler.ecc_anomaly", z3.Implies(inner, cE == num / den),
+                                                   order=("z3",)), extra=ex), [num / den, ys[0].arg(0), dis, o.e]), 30)
+            v.prove("kepler.ecc_anomaly.args", z3.And(num == 1 - o.d / o.a, den == o.e), order=("z3",))
+            generalize(v, focus(v.prove("kepler.branch", z3.Implies(inner, z3.If(dis < 0, sE <= 0, sE >= 0)), order=("z3",)),
+                                extra=ex), [o.a, o.d, o.e, dis])
+        else:
+            ys = [t for t in _find_apps(raw["M"], "m_acosh")]
+            v.ground("one_acosh", len(ys) == 1, "expected exactly one acosh application, found %d" % len(ys))
+            y = ys[0]
+            ex = _parity(v, y, hyperbolic=True)
+            x = y.arg(0)
+            vr = dis
+            Eh = z3.If(vr < 0, -y, y)
+            sh, ch = v.eng.uf("sinh", RR, RR), v.eng.uf("cosh", RR, RR)
+            sE, cE = z3.If(vr < 0, sh(z3.simplify(-y)), sh(y)), z3.If(vr < 0, ch(z3.simplify(-y)), ch(y))
+            focus(v.prove("kepler.equation", raw["M"] == o.e * sE - Eh, order=("z3",)), extra=ex)
+            # definition of the hyperbolic eccentric anomaly d = a (1 - e cosh E), solved for cosh E
+            small_hyps(generalize(v, focus(v.prove("kepler.ecc_anomaly", z3.Implies(x >= 1, cE == x),
+                                                   order=("z3",)), extra=ex), [x, vr, o.e]), 30)
+            v.prove("kepler.ecc_anomaly.args", x == (1 - o.d / o.a) / o.e, order=("z3",))
+            generalize(v, focus(v.prove("kepler.branch", z3.Implies(x >= 1, z3.If(vr < 0, sE <= 0, sE >= 0)), order=("z3",)),
+                                extra=ex), [o.a, o.d, o.e, vr])
+
+P.not_decided.append("reb_orbit_from_particle_err, near-circular orbits (e <= MIN_ECC = 1e-8): l = theta -+ 2 e sin f is a "
+                     "first-order approximation by design (M&D 2.93); l = pomega +- M is only claimed for e > MIN_ECC")
+
+
+# ============================================================================ round trip  elements -> particle -> elements
+def _forward_contract_facts(mu, a, e, trig, d, w, Hs):
+    """Postconditions of reb_particle_from_orbit_err as proved by tasks from_orbit.relations.{bound,unbound}
+    (clauses r_positive, semilatus_positive, distance, vis_viva, h.x/y/z, ecc_vector.x/y/z), restated for a particle
+    at relative position d and velocity w."""
+    (sO, cO), (si, ci), (so, co), (sf, cf) = trig
+    r = a * (1 - e * e) / (1 + e * cf)
+    h = _cross(d, w)
+    nhat = (si * sO, -si * cO, ci)
+    peri = _rot_zxz((1, 0, 0), sO, cO, si, ci, so, co)
+    vxh = _cross(w, h)
+    facts = [a * (1 - e * e) > 0, r > 0, _dot(d, d) == r * r, _dot(w, w) == mu * (2 / r - 1 / a)]
+    facts += [h[k] == Hs * nhat[k] for k in range(3)]
+    facts += [vxh[k] * r - mu * d[k] == mu * r * e * peri[k] for k in range(3)]
+    return r, h, nhat, peri, facts
+
+
+for _branch in ("bound", "unbound"):
+    @P.task("roundtrip.classical.%s" % _branch, fn="reb_orbit_from_particle_err", polyid_s=120)
+    def _(v, branch=_branch):
+        """Modular round trip: a particle that satisfies the (proved) postconditions of reb_particle_from_orbit_err for
+        elements (a, e, inc, Omega, omega, f) is read back by reb_orbit_from_particle_err with the same a, e, |h|,
+        cos(inc) and (cos, sin) of Omega."""
+        G, p, prim, errp, d, w = _inverse_inputs(v)
+        a, e = v.real("a"), v.real("e")
+        inc, Om, om, f = v.real("inc"), v.real("Omega"), v.real("omega"), v.real("f")
+        E = v.eng
+        trig = [E.trig_pair(x) for x in (Om, inc, om, f)]
+        (sO, cO), (si, ci), (so, co), (sf, cf) = trig
+        for s_, c_ in trig:
+            v.assume(s_ * s_ + c_ * c_ == 1)
+        mu = G * (p.m + prim.m)
+        v.assume(G > 0, p.m >= 0, prim.m > R(TINY), e >= 0, e != 1)
+        v.assume(*((e < 1, a > 0) if branch == "bound" else (e > 1, a < 0)))
+        v.assume(e * cf > -1)
+        Hs = E.math1(v.st, "sqrt", mu * a * (1 - e * e))
+        r, h, nhat, peri, facts = _forward_contract_facts(mu, a, e, trig, d, w, Hs)
+        v.assume(*facts)
+        v.assume(r > R(TINY))                    # else the inverse map rejects the particle (error 2: on top of primary)
+        v.eng.check_defined = False
+        calls = _use_acos2_contract(v)
+        _acosh_by_contract(v)
+        o = v.call("reb_orbit_from_particle_err", G, p, prim, errp)
+        from engine.csym import const_int
+        if const_int(v.read(errp)) != 0:
+            v.prove("accepted", z3.BoolVal(False), order=DEF_ORDER)     # an error path must be infeasible
+            return
+        RR = z3.RealSort()
+        cosf, sinf = E.uf("cos", RR, RR), E.uf("sin", RR, RR)
+        base = [x for pr in trig for x in pr] + [Hs]                   # atoms of the hypotheses (forward contract)
+        # distance
+        generalize(v, focus(v.prove("d_is_r", o.d == r, order=("z3",)), extra=base), [r, _dot(d, d)])
+        v.assume(o.d == r)
+        # semi-major axis
+        focus(v.prove("a", o.a == a, order=PZ), extra=base)
+        v.assume(o.a == a)
+        # eccentricity vector and eccentricity
+        oe = (o.evec.x, o.evec.y, o.evec.z)
+        for k, c in enumerate("xyz"):
+            focus(v.prove("evec." + c, oe[k] == e * peri[k], order=PZ), extra=base)
+        for k in range(3):
+            v.assume(oe[k] == e * peri[k])
+        focus(v.prove("e_sq", o.e * o.e == e * e, order=PZ), extra=base)
+        v.assume(o.e * o.e == e * e)
+        generalize(v, small_hyps(focus(v.prove("e", o.e == e, order=("z3",))), 30), [o.e])
+        v.assume(o.e == e)
+        # angular momentum
+        focus(v.prove("h_sq", o.h * o.h == Hs * Hs, order=PZ), extra=base)
+        v.assume(o.h * o.h == Hs * Hs)
+        generalize(v, small_hyps(focus(v.prove("h", o.h == Hs, order=("z3",)), extra=[Hs]), 30), [o.h, Hs])
+        v.assume(o.h == Hs)
